@@ -217,7 +217,7 @@ def tlc_mc(spec, cfg=None, workers=8, timeout=1500, coverage=True, env_extra=Non
     args = list(extra_args)
     if coverage:
         args = ["-coverage", "1"] + args
-    rc, out, wall = _tlc(spec + ".tla", cfg, os.path.join(WORK, "tlc_mc_" + os.path.basename(cfg).replace(".", "_")),
+    rc, out, wall = _tlc(spec + ".tla", cfg, os.path.join(WORK, "p%d" % os.getpid(), "tlc_mc_" + os.path.basename(cfg).replace(".", "_")),
                          env_extra, workers, timeout, args, xmx=xmx, deque=False)
     gen, dist = parse_counts(out)
     ok = "Model checking completed. No error has been found." in out
